@@ -20,6 +20,7 @@ UNITS = {
     "final": ("units/final.rs", None),
     "rank": ("units/rank.rs", None),
     "agg": ("units/agg.rs", None),
+    "aggp": ("units/aggp.rs", None),
     "aggb.obool": ("units/aggb.rs", "obool"),
     "aggb.bool": ("units/aggb.rs", "bool"),
     "quant": ("units/quant.rs", None),
@@ -78,7 +79,7 @@ PLAN["C20"] = dict(
 
 PLAN["C13"] = dict(
     verus=dict(quick=["map.f64"], thorough=["map.f64", "map.of64"]),
-    kani=dict(quick=[], thorough=[]),
+    kani=dict(quick=["map_bounded"], thorough=["map_bounded"]),
     level="proof",
 )
 
@@ -145,7 +146,7 @@ PLAN["C04"] = dict(
 )
 
 PLAN["C11"] = dict(
-    verus=dict(quick=["agg", "aggb.obool"], thorough=["agg", "aggb.obool", "aggb.bool"]),
+    verus=dict(quick=["agg", "aggp", "aggb.obool"], thorough=["agg", "aggp", "aggb.obool", "aggb.bool"]),
     kani=dict(quick=["agg_bounded"], thorough=["agg_bounded"]),
     level="proof",
 )
@@ -212,15 +213,15 @@ DETAILS = {
                 note="std adaptors by assumed contract (A-ITER)", not_covered=["TrustIter sites in functions not under contract"], assumptions=["A-ITER", "A-EXTRACT", "A-TOOLS"]),
     "C10": dict(text=_V + ": index preconditions at every uget / uset / uslice site and the write-exactly-once ghost map of the drivers, cmp, rank, quant units.",
                 note="", not_covered=["unsafe sites in functions not under contract"], assumptions=["A-SORT", "A-ITER", "A-EXTRACT", "A-TOOLS"]),
-    "C11": dict(text=_V + ": count_valid, count_none, vsum, vmean, vmean_var, vvar, vstd, vskew, vmax, vmin (via max_with / min_with), vargmax, vargmin, vany, vall equal their textbook forms over the non-null elements, incl. the null / minimum-count cases.  Kani (BOUNDED, length <= 4) as a backstop.",
+    "C11": dict(text=_V + ": count_valid, count_none, vsum, vmean, vmean_var, vvar, vstd, vskew, vmax, vmin (via max_with / min_with), vargmax, vargmin, vany, vall, vcov, vcorr_pearson (pairwise-complete) equal their textbook forms over the non-null elements, incl. the null / minimum-count cases.  Kani (BOUNDED, length <= 4) as a backstop.",
                 note="A-REAL for sums and moments; fold helpers vfold / vfold_n / vapply_n by assumed contract",
-                not_covered=["vkurt", "vcov", "vcorr_pearson", "masked sum / mean", "vfirst / vlast (bounded only)", "permutation invariance as a separate lemma"],
+                not_covered=["vkurt (needs the moment inequality m4 >= m2^2 to rule out the `res != 0` guard)", "masked sum / mean", "vfirst / vlast (bounded only)", "permutation invariance as a separate lemma"],
                 assumptions=["A-REAL", "A-ITER", "A-MONO", "A-EXTRACT", "A-TOOLS"]),
     "C12": dict(text=_V + ": vpartition / varg_partition (arity, padding, index ranges) and vquantile (errors, nulls, index ranges, order statistics for lower / higher / midpoint).",
                 note="sorting by assumed contract (A-SORT); vquantile needs the seed-retry policy (unstable query)",
                 not_covered=["linear interpolation value of vquantile", "vrank", "vpercentile_of"], assumptions=["A-SORT", "A-REAL", "A-ITER", "A-EXTRACT", "A-TOOLS"]),
-    "C13": dict(text=_V + ": positional postconditions of shift, vshift, vdiff, vpct_change (every lag incl. 0, |lag| >= len, fill values).",
-                note="", not_covered=["ffill / bfill / fill / vclip / vabs"], assumptions=["A-REAL", "A-ITER", "A-MONO", "A-EXTRACT", "A-TOOLS"]),
+    "C13": dict(text=_V + ": positional postconditions of shift, vshift, vdiff, vpct_change (every lag incl. 0, |lag| >= len, fill values), ffill / bfill (nearest earlier / later non-null element, else the default, else null; via ffill_mask / bfill_mask with the null test as mask), fill / fill_mask (touches only masked elements), vclip (each element alone, nulls stay null; idempotence and containment for lower <= upper as a lemma).",
+                note="the stateful map of ffill / bfill by the eager model (A-ITER, mapmodel.rs)", not_covered=["vabs / abs (the scalar clause is in C15)", "ffill_mask / bfill_mask with an arbitrary mask"], assumptions=["A-REAL", "A-ITER", "A-MONO", "A-EXTRACT", "A-TOOLS"]),
     "C14": dict(text=_V + ": vcut (label-count errors, unique enclosing interval, open bounds label every value, nulls get the null label) in three instantiations, from the extracted scan loop.  Kani (BOUNDED, sorted series of length <= 5) decides vsorted_unique_idx First / Last and vsorted_unique.",
                 note="run de-duplication is bounded only", not_covered=["unbounded argument for vsorted_unique*"], assumptions=["A-REAL", "A-ITER", "A-MONO", "A-EXTRACT", "A-TOOLS"]),
     "C16": dict(text=_V + ": into_unit (floor law, NaT), NaT predicates, calendar conversions per unit, NaT absorption of the operators; Kani: NaT and unit-identity laws over the full i64 domain.",
